@@ -704,7 +704,7 @@ class NoPanic:
                         while isinstance(r1, tuple) and r1 and r1[0] == "cast":
                             r1 = r1[3]
                         rets.append(r1)
-                    if impls and all(isinstance(r1, tuple) and r1 and (r1[0] == "len" or (r1[0] == "call" and callee_name(r1[1]) == "len")) for r1 in rets):
+                    if impls and all(isinstance(r1, tuple) and r1 and (r1[0] == "len" or (r1[0] == "int" and 0 <= r1[1] <= 4096) or (r1[0] == "call" and callee_name(r1[1]) == "len")) for r1 in rets):
                         at0 = ("len", ("dyn", at0[1]))
                 break
             if isinstance(at0, tuple) and at0 and at0[0] == "call" and callee_name(at0[1]) == "len":
